@@ -7,7 +7,10 @@
 //	<id> run <topic> <ops> <frames> <cut> | <go result> | <features>
 //
 // -gen generates the cases (own response encoder, one PRNG), runs them and
-// prints the lines; -run re-runs the lines read from stdin.  The OCaml driver
+// prints the lines; -run re-runs the lines read from stdin.  Parts A (exh) and
+// B (cut) are compared with the model; part C (drain: a fetch whose messages
+// are all read, op "fetchdrain", token drain:<close>:<read>:[messages]) is
+// judged by a predicate on its tags (recends, want).  The OCaml driver
 // evaluates the extracted Coq model (Model/ConnOps.v conn_run) on the part
 // before the first '|'.
 package main
@@ -73,12 +76,14 @@ var apiKeyOf = map[string]int16{
 	"offsetcommit": 8, "offsetfetch": 9, "findcoordinator": 10, "joingroup": 11, "heartbeat": 12,
 	"leavegroup": 13, "syncgroup": 14, "listgroups": 16, "saslhandshake": 17, "apiversions": 18,
 	"createtopics": 19, "deletetopics": 20, "saslauthenticate": 36,
+	"fetchdrain": 1, // a fetch whose messages are all read before the batch is closed (part C)
 }
 
 // operations whose version is negotiated from the broker's ApiVersions table
 var negotiated = map[string]bool{
 	"produce": true, "fetch": true, "metadata": true, "joingroup": true,
 	"createtopics": true, "deletetopics": true, "saslhandshake": true,
+	"fetchdrain": true,
 }
 
 // error-field sites of a response
@@ -322,6 +327,13 @@ func runOp(conn *kafka.Conn, f *fakeConn, o opSpec) (cls string) {
 	switch {
 	case f.hang:
 		return "hang"
+	case o.name == "fetchdrain":
+		// drain:<class of Close's error>:<class of the read error>:[messages read]
+		cc := "ok"
+		if err != nil {
+			cc = classify(err)
+		}
+		return "drain:" + cc + ":" + s
 	case err == nil:
 		return "ok=" + s
 	}
@@ -1260,7 +1272,190 @@ func genAll(seed int64, tier string) {
 			}
 		}
 	}
-	fmt.Fprintf(os.Stderr, "c11: part A %d cases, part B %d cases\n", counts["A"], counts["B"])
+	nC := genDrain(seed + 7777)
+	fmt.Fprintf(os.Stderr, "c11: part A %d cases, part B %d cases, part C %d cases\n", counts["A"], counts["B"], nC)
+}
+
+// ---------------------------------------------------------------------------
+// PART C: a fetch whose messages are all read (fetchdrain).  Not covered by the
+// model, judged by a predicate on the tags; generated after parts A and B from
+// a PRNG of its own so that those stay what they were.
+// ---------------------------------------------------------------------------
+
+type drainMsg struct {
+	off      int64
+	key, val []byte
+}
+
+func rsmall(r *rand.Rand, max int) []byte {
+	b := make([]byte, r.Intn(max+1))
+	r.Read(b)
+	return b
+}
+
+// a message set of n records with consecutive offsets off, off+1, ...; ends[i] is
+// the number of bytes of the message set after which record i is wholly there
+func genDrainMsgSet(r *rand.Rand, kind int, n int, off int64) (ms []byte, ends []int, want []drainMsg) {
+	for i := 0; i < n; i++ {
+		m := drainMsg{off: off + int64(i), val: rsmall(r, 9)}
+		if r.Intn(3) != 0 {
+			m.key = rsmall(r, 5)
+		} // else a null key
+		want = append(want, m)
+	}
+	var e enc
+	switch kind {
+	case msV2:
+		var recs enc
+		var recEnds []int
+		for i, m := range want {
+			var b enc
+			b.i8(0)                     // attributes
+			b.varint(int64(r.Intn(50))) // timestamp delta
+			b.varint(int64(i))          // offset delta
+			if m.key == nil {
+				b.varint(-1)
+			} else {
+				b.varint(int64(len(m.key)))
+				b.b = append(b.b, m.key...)
+			}
+			b.varint(int64(len(m.val)))
+			b.b = append(b.b, m.val...)
+			b.varint(0) // headers
+			recs.varint(int64(len(b.b)))
+			recs.b = append(recs.b, b.b...)
+			recEnds = append(recEnds, len(recs.b))
+		}
+		ts := r.Int63n(1 << 41)
+		e.i64(off)                     // base offset
+		e.i32(int32(49 + len(recs.b))) // batch length: what follows this field
+		e.i32(ri32(r))                 // partition leader epoch
+		e.i8(2)                        // magic
+		e.i32(int32(r.Uint32()))       // crc (not verified by the legacy reader)
+		e.i16(0)                       // attributes
+		e.i32(int32(n - 1))            // last offset delta
+		e.i64(ts)                      // first timestamp
+		e.i64(ts + 50)                 // max timestamp
+		e.i64(-1)                      // producer id
+		e.i16(-1)                      // producer epoch
+		e.i32(-1)                      // base sequence
+		e.i32(int32(n))                // record count
+		hdr := len(e.b)
+		e.b = append(e.b, recs.b...)
+		for _, p := range recEnds {
+			ends = append(ends, hdr+p)
+		}
+	case msV1:
+		for _, m := range want {
+			sz := 4 + 1 + 1 + 8 + 4 + len(m.key) + 4 + len(m.val)
+			e.i64(m.off)     // offset
+			e.i32(int32(sz)) // message size: what follows this field
+			e.i32(int32(r.Uint32()))
+			e.i8(1) // magic
+			e.i8(0) // attributes
+			e.i64(r.Int63n(1 << 41))
+			e.byt(m.key) // nil = null
+			if m.val == nil {
+				e.byt([]byte{})
+			} else {
+				e.byt(m.val)
+			}
+			ends = append(ends, len(e.b))
+		}
+	}
+	return e.b, ends, want
+}
+
+func genDrain(seed int64) int {
+	r := rand.New(rand.NewSource(seed))
+	count := 0
+	type kind struct {
+		ms, n int
+	}
+	kinds := []kind{{msV2, 1}, {msV2, 2}, {msV2, 3}, {msV1, 1}, {msV1, 2}}
+	for _, ver := range []int{2, 5, 10} {
+		for _, kd := range kinds {
+			for variant := 0; variant < 2; variant++ {
+				var off int64
+				if r.Intn(3) == 0 {
+					off = r.Int63n(1 << 40)
+				} else {
+					off = int64(r.Intn(1000))
+				}
+				ms, ends, want := genDrainMsgSet(r, kd.ms, kd.n, off)
+				var e enc
+				e.i32(ri32(r)) // throttle
+				if ver == 10 {
+					e.i16(0)
+					e.i32(ri32(r)) // session id
+				}
+				e.arr(1)
+				e.str(rstr(r))
+				e.arr(1)
+				e.i32(ri32(r)) // partition
+				e.i16(0)
+				e.i64(off + 100) // high watermark
+				if ver >= 5 {
+					e.i64(ri64(r)) // last stable offset
+					e.i64(ri64(r)) // log start offset
+					if r.Intn(4) == 0 {
+						e.arr(-1)
+					} else {
+						na := r.Intn(3)
+						e.arr(na)
+						for i := 0; i < na; i++ {
+							e.i64(ri64(r))
+							e.i64(ri64(r))
+						}
+					}
+				}
+				e.i32(int32(len(ms)))
+				msStart := 8 + len(e.b) // position in the frame
+				e.b = append(e.b, ms...)
+				fr := frame(2, e.b)
+
+				pe := make([]string, len(ends))
+				for i, p := range ends {
+					pe[i] = kvfmt.U(uint64(msStart + p))
+				}
+				wl := make([]string, len(want))
+				for i, m := range want {
+					wl[i] = kvfmt.I(m.off) + "," + kvfmt.Bytes(m.key) + "," + kvfmt.Bytes(m.val)
+				}
+				base := fmt.Sprintf("drain,op=fetchdrainv%d,msgset=%s,nrec=%d,recends=%s,want=[%s]",
+					ver, msName[kd.ms], kd.n, strings.Join(pe, "/"), strings.Join(wl, ";"))
+
+				// (a) the whole response, then a heartbeat on the same connection
+				emit(&tcase{
+					topic:  ownTopic,
+					ops:    []opSpec{{"fetchdrain", ver, off}, {"heartbeat", 0, 0}},
+					frames: [][]byte{fr, frame(3, []byte{0, 0})},
+					cut:    -1,
+					tags:   base + ",next=heartbeatv0",
+				})
+				count++
+				// (b) cut at every byte
+				for k := 0; k < len(fr); k++ {
+					pos := "body"
+					switch {
+					case k < 8:
+						pos = "hdr"
+					case k == len(fr)-1:
+						pos = "last"
+					}
+					emit(&tcase{
+						topic:  ownTopic,
+						ops:    []opSpec{{"fetchdrain", ver, off}},
+						frames: [][]byte{fr},
+						cut:    k,
+						tags:   base + ",cutpos=" + pos,
+					})
+					count++
+				}
+			}
+		}
+	}
+	return count
 }
 
 func main() {
@@ -1271,6 +1466,7 @@ func main() {
 	flag.Parse()
 	out = bufio.NewWriterSize(os.Stdout, 1<<20)
 	defer out.Flush()
+	kafka.VerifC11Classify = classify
 	switch {
 	case *gen && !*run:
 		if *tier != "quick" && *tier != "thorough" {
